@@ -5,20 +5,21 @@ ID = "C18"
 
 MANIFEST = {
     "level": "Bounded model checking by symbolic execution of the real TrueSingleton.__call__ and clear_true_singleton: "
-             "histories of depth 3 (quick) / 4 (thorough) over four classes (two independent singleton classes - one of "
+             "histories of depth 3 (quick) / 4 (thorough) over five classes (two independent singleton classes - one of "
              "whose constructors calls the global clear while it runs, for one argument value -, a "
-             "subclass of one of them, and a class whose instances are falsy), starting from an arbitrary subset of "
+             "subclass of one of them, a class whose instances are falsy, and a factory class whose __new__ hands out an "
+             "instance of a subclass), starting from an arbitrary subset of "
              "classes already instantiated; op kinds and classes fork, constructor arguments (positional / keyword) are "
              "symbolic integers. After every step the real behaviour must equal a per-class reference (same object "
              "until cleared, __init__ once per period with the first call's arguments, exact class, per-class "
              "isolation, global clear resets all, clearing an absent class is a no-op, nothing raises); a final probe "
              "of every class checks isolation.",
-    "note": "Bounds: 4 classes, history depth 3/4 after the symbolic start-up. Garbage collection / weak references are "
+    "note": "Bounds: 5 classes, history depth 3/4 after the symbolic start-up. Garbage collection / weak references are "
             "outside every claim (DESIGN 6). Trusted: pysym's metaclass model (validated per path on CPython), z3.",
     "design_ref": "DESIGN.md 5 (C18)",
 }
 
-BOUNDS = {"quick": {"classes": 4, "depth": 3}, "thorough": {"classes": 4, "depth": 4}}
+BOUNDS = {"quick": {"classes": 5, "depth": 3}, "thorough": {"classes": 5, "depth": 4}}
 TIME_BUDGET = {"quick": 300, "thorough": 1200}
 STUBS = []
 ASSUMPTIONS = ["in the symbolic histories instances are kept alive by the caller (garbage collection is not modelled; "
@@ -37,7 +38,7 @@ def required_markers(tier):
 PROG = '''
 from edgegraph.structure import singleton
 
-COUNT = {"A": 0, "B": 0, "SubA": 0, "F": 0}
+COUNT = {"A": 0, "B": 0, "SubA": 0, "F": 0, "K": 0}
 
 class A(metaclass=singleton.TrueSingleton):
     def __init__(self, x=None, y=None):
@@ -69,11 +70,26 @@ class F(metaclass=singleton.TrueSingleton):
     def __len__(self):
         return 0
 
-CLASSES = [A, B, SubA, F]
-NAMES = ["A", "B", "SubA", "F"]
-inst = [None, None, None, None]
-first = [None, None, None, None]
-cnt = [0, 0, 0, 0]
+class K(metaclass=singleton.TrueSingleton):
+    """a factory class: constructing it yields an instance of a subclass chosen by __new__"""
+    def __new__(cls, x=None, y=None):
+        return object.__new__(KImpl)
+
+    def __init__(self, x=None, y=None):
+        COUNT["K"] += 1
+        self.x = x
+        self.y = y
+
+class KImpl(K):
+    pass
+
+CLASSES = [A, B, SubA, F, K]
+NAMES = ["A", "B", "SubA", "F", "K"]
+KINDS = [A, B, SubA, F, KImpl]      # the exact class of what each constructor hands out
+N = 5
+inst = [None, None, None, None, None]
+first = [None, None, None, None, None]
+cnt = [0, 0, 0, 0, 0]
 ok = True
 raised = None
 
@@ -96,16 +112,16 @@ def construct(ci, style, a1, a2):
         if NAMES[ci] == "B" and fa[1] == 3:
             # its constructor cleared every singleton; the instance under construction becomes B's afterwards
             j = 0
-            while j < 4:
+            while j < N:
                 inst[j] = None
                 j = j + 1
         inst[ci] = r
         first[ci] = fa
         cnt[ci] = cnt[ci] + 1
-    ok = ok and (r is inst[ci]) and (type(r) is cls) and (COUNT[NAMES[ci]] == cnt[ci])
+    ok = ok and (r is inst[ci]) and (type(r) is KINDS[ci]) and (COUNT[NAMES[ci]] == cnt[ci])
     ok = ok and (r.x == first[ci][0]) and (r.y == first[ci][1])
     j = 0
-    while j < 4:
+    while j < N:
         if j != ci and inst[j] is not None:
             ok = ok and (r is not inst[j])
         j = j + 1
@@ -120,10 +136,10 @@ try:
             inst[ci] = None
         else:
             singleton.clear_true_singleton()
-            inst = [None, None, None, None]
+            inst = [None, None, None, None, None]
     # final probe: every class still answers according to the reference
     ci = 0
-    while ci < 4:
+    while ci < N:
         construct(ci, 0, probe, None)
         ci = ci + 1
 except Exception as exc:
@@ -158,7 +174,8 @@ def native_unreferenced(B):
 def scenario(B, p):
     ops = []
     # start-up: an arbitrary subset of the classes is already instantiated (by real constructor calls)
-    for ci in range(4):
+    # (A, its subclass and the factory class; the other two are reached by the history itself)
+    for ci in (0, 2, 4):
         if B.choice(f"pre{ci}", 2) == 1:
             ops.append(B.mktuple([0, ci, 0, B.int(f"pre{ci}.arg", 0, 3), None]))
     for s in range(p["depth"]):
@@ -166,7 +183,7 @@ def scenario(B, p):
         if kind == 2:
             ops.append(B.mktuple([2, 0, 0, None, None]))
             continue
-        ci = B.choice(f"s{s}.cls", 4)
+        ci = B.choice(f"s{s}.cls", 5)
         if kind == 1:
             ops.append(B.mktuple([1, ci, 0, None, None]))
             continue
